@@ -387,12 +387,13 @@ def run_shard(ctx):
         reader_postconditions(ctx, es, form, variant)
         ctx.ctr("empty_run_cases")
         j = rng.choice([1, 2, 19, 20, 20])
-        sh2 = rng.choice([s for s in ("survey", "choices", "settings") if s in sheets])
+        sh2 = rng.choice([s for s in ("survey", "choices", "settings", "external_choices", "external_choices") if s in sheets])
         cs = blank_cols(sheets, sh2, rng.randint(1, len(sheets[sh2][0])), j)
         if rng.random() < 0.5:
             cs = blank_cols(cs, sh2, len(cs[sh2][0]), rng.choice([1, 5, 30]))  # trailing blank columns
         variant = f"blank-cols={j}"
-        compare_all(ctx, form, cs, sig, variant, ["xlsx", "xls"], rng)
+        # the text containers can have blank header cells between headers too (a few of them: they have no "run of 20" rule to test)
+        compare_all(ctx, form, cs, sig, variant, ["xlsx", "xls"] + (["md", "csv"] if j <= 2 and md_representable(cs) else []), rng)
         reader_postconditions(ctx, cs, form, variant)
         ctx.ctr("empty_run_cases")
     # ---- fixtures: legacy .xls re-rendered as .xlsx must convert identically
